@@ -2009,3 +2009,54 @@ func c10R11(c *Ctx, r *Report) {
 	}
 	r.Floor(rule, n, 1, "range-expression clauses that check their bounds")
 }
+
+// ---- C11.R17: an untyped integer expression is not resolved to a float type wholesale ---------------------------
+
+func init() {
+	lateInits = append(lateInits, func() {
+		props["C11"].Quick = append(props["C11"].Quick, c11R17)
+		props["C11"].Explanation += " (R17) typechecker.resolveType hands an untyped integer the expected type only when that type is an integer type (a float target is decided per value, where literals are range-checked)."
+	})
+}
+
+func c11R17(c *Ctx, r *Report) {
+	const rule = "C11.R17"
+	r.Describe(rule, "typechecker.resolveType: every `return expected` guarded by IsUntypedInt(…) is also guarded by IsInteger(expected); every one guarded by IsUntypedFloat(…) by IsFloat(expected)")
+	fn := c.LookupFn(pkgTC, "resolveType")
+	if !r.Anchor(rule, fn != nil && fn.Decl.Body != nil, "typechecker.resolveType") {
+		return
+	}
+	info := fn.Info()
+	sig := fn.Obj.Type().(*types.Signature)
+	if !r.Anchor(rule, sig.Params().Len() == 2, "resolveType(untyped, expected)") {
+		return
+	}
+	expected := sig.Params().At(1)
+	n := 0
+	walkWithStack(fn.Decl.Body, func(x ast.Node, stack []ast.Node) bool {
+		ret, ok := x.(*ast.ReturnStmt)
+		if !ok || len(ret.Results) != 1 || objOf(info, ret.Results[0]) != expected {
+			return true
+		}
+		preds := map[string]bool{}
+		for _, a := range stack {
+			ifs, isIf := a.(*ast.IfStmt)
+			if !isIf || !containsNode(ifs.Body, ret) {
+				continue
+			}
+			for _, cj := range conjuncts(ifs.Cond) {
+				if cl, isCall := ast.Unparen(cj).(*ast.CallExpr); isCall {
+					if f := callee(info, cl); f != nil {
+						preds[f.Name()] = true
+					}
+				}
+			}
+		}
+		n++
+		good := (preds["IsUntypedInt"] && preds["IsInteger"] && !preds["IsNumeric"]) || (preds["IsUntypedFloat"] && preds["IsFloat"])
+		r.Check(good, rule, fn.Name(), "return expected #"+itoa(n), c.pos(ret.Pos()),
+			"an untyped integer expression takes any numeric expected type, floats included, without a look at its value: `fn f() -> str ! f32 { return 16777216 + 1; }` is accepted and yields 16777216.0 (`return 16777217;` is rejected)")
+		return true
+	})
+	r.Floor(rule, n, 2, "`return expected` statements in resolveType")
+}
